@@ -129,6 +129,9 @@ EmbedShapes == <<
   Shape("e.val.in.val", Desc(<<Msg("Inner", <<Fld("Num", 1, "int32")>>, <<>>),
         Msg("Outer", <<Fld("Str", 1, "string"), NonNull(Embed(MsgF("Inner", 2, "Inner")))>>, <<>>),
         Msg("Root", <<NonNull(Embed(MsgF("Outer", 1, "Outer"))), Fld("Flag", 2, "bool")>>, <<>>)>>), BaseCfg),
+  \* an embedded message (by value) that has a oneof group of its own: its branches are fields of the embedding message
+  Shape("e.val.oneof", Desc(<<Msg("Inner", <<Fld("Num", 1, "int32"), InOneof(Fld("BranchA", 2, "string"), "Grp"), InOneof(Fld("BranchB", 3, "int32"), "Grp")>>, <<"Grp">>),
+        Msg("Root", <<Fld("Str", 1, "string"), NonNull(Embed(MsgF("Inner", 2, "Inner")))>>, <<>>)>>), BaseCfg),
   \* a pointer scalar below a nullable embedded message (two nil checks in a row)
   Shape("e.ptr.time", Desc(<<Msg("Inner", <<StdTime("When", 1), Fld("Str", 2, "string")>>, <<>>),
         Msg("Root", <<Fld("Num", 1, "int32"), Embed(MsgF("Inner", 2, "Inner"))>>, <<>>)>>), BaseCfg),
